@@ -128,17 +128,33 @@ def fieldDocs : List F → List Doc
   | f :: fs => fieldDocOf f :: fieldDocs fs
 end
 
-/-- `sequence_doc_with` of a one-step sequence without trivia -/
-def sequenceDoc (t : T) : Doc :=
-  Doc.mkGroup (.concat [fieldDoc (chainDoc (termDoc t)), .nest 0 (.concat [])])
+/-- the step separator of `sequence_doc_with`: `, ` inline, a bare newline when the sequence is broken
+    (comma and newline are synonyms) -/
+def seqSepDoc : Doc := .concat [.ifBreak .nil (.text [',']), .line]
 
-/-- the `Doc` of `format_program` for the one-statement program `t` -/
-def programDoc (t : T) : Doc := .concat [sequenceDoc t]
+/-- the `rest` of `sequence_doc_with`: separator and item for every step after the first. None of the
+    special cases applies on the fragment: a one-term chain is never "tall", no step starts with `(`
+    (`glued`) or with a block (`needs_explicit_comma`). -/
+def restDocs : List T → List Doc
+  | [] => []
+  | t :: ts => seqSepDoc :: fieldDoc (chainDoc (termDoc t)) :: restDocs ts
+
+/-- `sequence_doc_with` without trivia: `group(concat [first, nest(0, concat rest)])` -/
+def sequenceDoc : List T → Doc
+  | [] => Doc.mkGroup (.concat [.nil, .nest 0 (.concat [])])
+  | t :: ts => Doc.mkGroup (.concat [fieldDoc (chainDoc (termDoc t)), .nest 0 (.concat (restDocs ts))])
+
+/-- the `Doc` of `format_program` for the program whose only statement is the sequence of the one-term
+    chains `ts` (the parser makes ONE sequence of all the comma/newline-separated expressions) -/
+def programDoc (ts : List T) : Doc := .concat [sequenceDoc ts]
+
+/-- a program of the fragment: at least one step, all well-formed -/
+def WFProg (ts : List T) : Prop := ts ≠ [] ∧ ∀ t ∈ ts, T.WF t
 
 /-- `format_program` on the fragment: lay out at `WIDTH`, collapse blank lines, expand the (absent)
     literal placeholders. -/
-def fmtFrag (t : T) : List Char :=
-  match expandLiterals (collapseBlanks (print (programDoc t) pageWidth)) [] with
+def fmtFrag (ts : List T) : List Char :=
+  match expandLiterals (collapseBlanks (print (programDoc ts) pageWidth)) [] with
   | some out => out
   | none => "<panic: literal index out of range>".toList
 
@@ -179,7 +195,14 @@ def peof : P Unit := fun i =>
   | [] => .ok () []
   | _ :: _ => .err i .eof
 
-/-- `program` on a one-statement source: `ws_with_comments`, the statement, `ws_with_comments`, `eof` -/
-def programP : P T := fun i => seq wsc (before (termP (i.length + 1)) (seq wsc peof)) i
+/-- `sequence` = `terminated(separated_list1(seq_sep, chain), opt(seq_sep))`; a chain of the
+    fragment is one `primary` (the speculative `pattern =` alternative of `chain` fails at the `=`). -/
+def sequenceP (n : Nat) : P (List T) := before (sepList1 seqSep (termP n)) (opt seqSep)
+
+/-- `program` = `delimited(ws_with_comments, terminated(separated_list0(seq_sep, top_level_item),
+    opt(seq_sep)), pair(ws_with_comments, eof))`; `top_level_item` = type alias (fails at the first
+    character on fragment texts) or `sequence`. The result lists the statements (sequences). -/
+def programP : P (List (List T)) := fun i =>
+  seq wsc (before (before (sepList0 seqSep (sequenceP (i.length + 1))) (opt seqSep)) (seq wsc peof)) i
 
 end QM.Frag
